@@ -1140,10 +1140,11 @@ def dag_nodes(t) -> List[tuple]:
     stack = [t]
     while stack:
         x = stack.pop()
-        if not isinstance(x, tuple) or id(x) in seen:
+        if not isinstance(x, tuple) or not x or id(x) in seen:
             continue
         seen[id(x)] = x
-        out.append(x)
+        if isinstance(x[0], str):
+            out.append(x)
         for y in reversed(x):
             if isinstance(y, tuple):
                 stack.append(y)
